@@ -86,6 +86,7 @@ func genC01(c *Ctx) {
 				Note: fmt.Sprintf("%d records, %s, text %q", len(rs), kind, trunc(string(txt), 200))})
 		}
 	}
+	longCases(c, "fasta", 0)
 	// Big sizes: direct oracle only (and model for the moderately big ones).
 	sizes := []int{65535, 65536, 65537}
 	if c.thor {
@@ -181,6 +182,7 @@ func genC02(c *Ctx) {
 				Oracle: oracle, Note: fmt.Sprintf("text %q", trunc(b.String(), 200))})
 		}
 	}
+	longCases(c, "fastq", 0)
 	sizes := []int{65535, 65536, 70000}
 	if c.thor {
 		sizes = append(sizes, 3<<20)
@@ -290,6 +292,8 @@ func genC03(c *Ctx) {
 		c.add(Case{Op: "sam.dec e " + hx(txt), Impl: itemsStr(items, st), Kind: "file", Nontrivial: len(rs) > 0,
 			Note: fmt.Sprintf("sam file %q", trunc(string(txt), 300))})
 	}
+	longCases(c, "sam", 3)
+	longCases(c, "samh", 4)
 	// Flags: exhaustive 4096 values x 12 accessors/setters against the SAM-spec bit table.
 	type acc struct {
 		name string
@@ -395,6 +399,7 @@ func genC04(c *Ctx) {
 		c.add(Case{Op: "bed.enc " + bedOpArgs(b), Impl: hx(mt), Kind: fmt.Sprintf("enc-N%d", n), Nontrivial: true, Oracle: oracle,
 			Note: fmt.Sprintf("bed N=%d line %q", n, trunc(string(mt), 200))})
 	}
+	longCases(c, "bed", 3)
 	for _, n := range []int{-1, 0, 1, 2, 13, 14, 100} {
 		b := c.bedRec(5)
 		b.N = n
@@ -568,6 +573,7 @@ func genC05(c *Ctx) {
 			check([]*newick.Node{nodes[0]}, nil, fmt.Sprintf("shape-%d", n))
 		})
 	}
+	longCases(c, "newick", 2)
 	// Deep chains (oracle only beyond what the model driver's recursion can take).
 	depth := 100000
 	if c.thor {
@@ -596,4 +602,41 @@ func genC05(c *Ctx) {
 		oracle = "deep chain round trip panicked"
 	}
 	c.add(Case{Kind: "deep", Nontrivial: true, Oracle: oracle, Note: fmt.Sprintf("chain of depth %d", depth)})
+}
+
+
+// longCases decodes the format's long-line inputs (lines crossing bufio's
+// 4096-byte buffer) and checks the item count and absence of errors, besides
+// the comparison with the model.
+func longCases(c *Ctx, name string, want int) {
+	var f *format
+	for _, g := range formats {
+		if g.name == name {
+			f = g
+		}
+	}
+	for _, data := range c.longLineInputs(name) {
+		for _, variant := range []string{"lf", "crlf"} {
+			d := data
+			if variant == "crlf" {
+				d = crlf(data)
+			}
+			items, st := f.decode(bytes.NewReader(d), 0, len(d)+16)
+			oracle := ""
+			n := want
+			if name == "fasta" || name == "fastq" {
+				n = bytes.Count(data, []byte{data[0]}) // records start with '>' / '@' (the filler has neither)
+			}
+			if st != "" || len(items) != n {
+				oracle = fmt.Sprintf("long-line %s input (%s): %d items (status %q), want %d records", name, variant, len(items), st, n)
+			}
+			for _, it := range items {
+				if it == "E" {
+					oracle = fmt.Sprintf("long-line %s input (%s) yields an error item", name, variant)
+				}
+			}
+			c.add(Case{Op: decOpLine(f, "e", d), Impl: itemsStr(items, st), Kind: "long-" + variant, Nontrivial: true, Oracle: oracle,
+				Note: fmt.Sprintf("%s input with a %d-byte line (%s): %q…", name, len(d), variant, trunc(string(d), 60))})
+		}
+	}
 }
